@@ -96,6 +96,10 @@ void Scheduler::RunLoop() {
     }
 #endif
     WakeUpNeeded();
+    if (_queue.Empty()) {
+      // only already emptied sleep slots (their timed waiters were notified earlier) were left
+      continue;
+    }
     auto* next = GetNext();
     sCurrent = next;
     TickTime();
